@@ -393,6 +393,7 @@ def numeric_vs_pywt(rep, pid, tier):
     if tier == "quick":
         names = ["haar", "db2", "db5", "sym4", "coif2", "bior1.3", "bior2.4", "bior3.9", "rbio2.2", "dmey"]
     n1 = n2 = 0
+    kform = 0          # the wavelet is handed over in every accepted form in turn (string, Wavelet object, custom, tuples)
     for name in names:
         wv = pywt.Wavelet(name)
         L = wv.dec_len
@@ -407,7 +408,10 @@ def numeric_vs_pywt(rep, pid, tier):
                 except ValueError:
                     break
                 try:
-                    yl, yh = pw.DWT1DForward(J=J, wave=name, mode=mode)(torch.tensor(x))
+                    kform += 1
+                    wave, form = dwtlib.wave_form(name, kform)
+                    mode_arg = "per" if (mode == "periodization" and kform % 2) else mode
+                    yl, yh = pw.DWT1DForward(J=J, wave=wave, mode=mode_arg)(torch.tensor(x))
                 except Exception as e:   # noqa
                     lens = [N]
                     for _ in range(J):
@@ -422,9 +426,9 @@ def numeric_vs_pywt(rep, pid, tier):
                 err = max(np.abs(a - b).max() if a.shape == b.shape else np.inf for a, b in zip(got, ref))
                 n1 += 1
                 if not err <= bound:
-                    rep.violation("DWT1DForward(%s, %s, J=%d, N=%d) differs from pywt.wavedec by %.3g (rounding bound %.3g)"
-                                  % (name, mode, J, N, err, bound),
-                                  {"api": "DWT1DForward", "check": "numeric", "cfg": dict(wavelet=name, mode=mode, N=N, J=J), "err": err})
+                    rep.violation("DWT1DForward(%s given as %s, %s, J=%d, N=%d) differs from pywt.wavedec by %.3g (rounding bound %.3g)"
+                                  % (name, form, mode_arg, J, N, err, bound),
+                                  {"api": "DWT1DForward", "check": "numeric", "cfg": dict(wavelet=name, wave_form=form, mode=mode_arg, N=N, J=J), "err": err})
                     break
             # ---- 2-D
             H, W = int(rng.integers(2, L + 14)), int(rng.integers(2, L + 14))
@@ -435,7 +439,10 @@ def numeric_vs_pywt(rep, pid, tier):
                 except ValueError:
                     break
                 try:
-                    yl, yh = pw.DWTForward(J=J2, wave=name, mode=mode)(torch.tensor(x))
+                    kform += 1
+                    wave, form = dwtlib.wave_form(name, kform)
+                    mode_arg = "per" if (mode == "periodization" and kform % 2) else mode
+                    yl, yh = pw.DWTForward(J=J2, wave=wave, mode=mode_arg)(torch.tensor(x))
                 except Exception as e:   # noqa
                     if mode == "reflect":
                         continue
@@ -449,9 +456,9 @@ def numeric_vs_pywt(rep, pid, tier):
                     err = max(err, np.abs(yh[j].numpy() - r3).max() if tuple(yh[j].shape) == r3.shape else np.inf)
                 n2 += 1
                 if not err <= bound:
-                    rep.violation("DWTForward(%s, %s, J=%d, %dx%d) differs from pywt.wavedec2 by %.3g (rounding bound %.3g)"
-                                  % (name, mode, J2, H, W, err, bound),
-                                  {"api": "DWTForward", "check": "numeric", "cfg": dict(wavelet=name, mode=mode, H=H, W=W, J=J2), "err": err})
+                    rep.violation("DWTForward(%s given as %s, %s, J=%d, %dx%d) differs from pywt.wavedec2 by %.3g (rounding bound %.3g)"
+                                  % (name, form, mode_arg, J2, H, W, err, bound),
+                                  {"api": "DWTForward", "check": "numeric", "cfg": dict(wavelet=name, wave_form=form, mode=mode_arg, H=H, W=W, J=J2), "err": err})
                     break
             rep.nontriv(("numeric", name, mode))
     rep.validated(n1 + n2)
@@ -775,19 +782,23 @@ def numeric_inverse_vs_pywt(rep, pid, tier):
                 continue            # PyWavelets itself refuses (a one-sample level in reflect mode)
             coeffs = [rng.standard_normal((2, 2, s)) for s in shapes]      # [cA_J, cD_J, ..., cD_1]
             ref = pywt.waverec(coeffs, wv, mode=mode, axis=-1)
+            kform = names.index(name) * 7 + dwtlib.MODES.index(mode)
+            wave, form = dwtlib.wave_form(name, kform, synthesis=True)
+            mode_arg = "per" if (mode == "periodization" and kform % 2) else mode
             try:
-                y = pw.DWT1DInverse(wave=name, mode=mode)(
-                    (torch.tensor(coeffs[0]), [torch.tensor(c) for c in coeffs[1:][::-1]])).numpy()
+                yh1 = [torch.tensor(c) for c in coeffs[1:][::-1]]
+                y = pw.DWT1DInverse(wave=wave, mode=mode_arg)(
+                    (torch.tensor(coeffs[0]), tuple(yh1) if kform % 3 == 0 else yh1)).numpy()      # yh as a list or a tuple
             except Exception as e:   # noqa
-                rep.violation("DWT1DInverse(%s, %s) raised %r on a random pyramid of shapes %s" % (name, mode, e, shapes),
+                rep.violation("DWT1DInverse(%s given as %s, %s) raised %r on a random pyramid of shapes %s" % (name, form, mode_arg, e, shapes),
                               {"api": "DWT1DInverse", "check": "numeric", "cfg": dict(wavelet=name, mode=mode, N=N, J=J)})
                 continue
             bound = 64 * EPS64 * L * J * (2 * G) ** J * max(np.abs(c).max() for c in coeffs)
             err = np.abs(y - ref).max() if y.shape == ref.shape else np.inf
             n1 += 1
             if not err <= bound:
-                rep.violation("DWT1DInverse(%s, %s, J=%d, N=%d) differs from pywt.waverec by %.3g (rounding bound %.3g; shapes %s vs %s)"
-                              % (name, mode, J, N, err, bound, y.shape, ref.shape),
+                rep.violation("DWT1DInverse(%s given as %s, %s, J=%d, N=%d) differs from pywt.waverec by %.3g (rounding bound %.3g; shapes %s vs %s)"
+                              % (name, form, mode_arg, J, N, err, bound, y.shape, ref.shape),
                               {"api": "DWT1DInverse", "check": "numeric", "cfg": dict(wavelet=name, mode=mode, N=N, J=J)})
             H, W = int(rng.integers(2, L + 14)), int(rng.integers(2, L + 14))
             J2 = int(rng.integers(1, 3))
@@ -800,17 +811,18 @@ def numeric_inverse_vs_pywt(rep, pid, tier):
             ref = pywt.waverec2(c2, wv, mode=mode, axes=(-2, -1))
             try:
                 yh = [torch.tensor(np.stack(lev, axis=2)) for lev in c2[1:][::-1]]
-                y = pw.DWTInverse(wave=name, mode=mode)((torch.tensor(c2[0]), yh)).numpy()
+                wave2, form2 = dwtlib.wave_form(name, kform + 1, synthesis=True)
+                y = pw.DWTInverse(wave=wave2, mode=mode_arg)((torch.tensor(c2[0]), tuple(yh) if kform % 3 == 1 else yh)).numpy()
             except Exception as e:   # noqa
-                rep.violation("DWTInverse(%s, %s) raised %r on a random %dx%d pyramid" % (name, mode, e, H, W),
+                rep.violation("DWTInverse(%s given as %s, %s) raised %r on a random %dx%d pyramid" % (name, form2, mode_arg, e, H, W),
                               {"api": "DWTInverse", "check": "numeric", "cfg": dict(wavelet=name, mode=mode, H=H, W=W, J=J2)})
                 continue
             bound = 64 * EPS64 * L * L * J2 * (2 * G) ** (2 * J2) * max(np.abs(c2[0]).max(), 4.0)
             err = np.abs(y - ref).max() if y.shape == ref.shape else np.inf
             n2 += 1
             if not err <= bound:
-                rep.violation("DWTInverse(%s, %s, J=%d, %dx%d) differs from pywt.waverec2 by %.3g (rounding bound %.3g; shapes %s vs %s)"
-                              % (name, mode, J2, H, W, err, bound, y.shape, ref.shape),
+                rep.violation("DWTInverse(%s given as %s, %s, J=%d, %dx%d) differs from pywt.waverec2 by %.3g (rounding bound %.3g; shapes %s vs %s)"
+                              % (name, form2, mode_arg, J2, H, W, err, bound, y.shape, ref.shape),
                               {"api": "DWTInverse", "check": "numeric", "cfg": dict(wavelet=name, mode=mode, H=H, W=W, J=J2)})
             rep.nontriv(("numeric-inv", name, mode))
     rep.validated(n1 + n2)
@@ -958,7 +970,9 @@ def numeric_round_trips(rep, fnd, pid, tier):
             J = int(rng.integers(1, 4))
             if mode == "reflect":
                 N = max(N, L + 2 * J)
-            fw, iv = pw.DWT1DForward(J=J, wave=name, mode=mode), pw.DWT1DInverse(wave=name, mode=mode)
+            kf = names.index(name) * 3 + dwtlib.MODES.index(mode)
+            fw = pw.DWT1DForward(J=J, wave=dwtlib.wave_form(name, kf)[0], mode=mode)
+            iv = pw.DWT1DInverse(wave=dwtlib.wave_form(name, kf + 2, synthesis=True)[0], mode=mode)
             for x in adversarial_inputs(rng, (2, 2, N)):
                 cfg = dict(wavelet=name, mode=mode, N=N, J=J)
                 try:
@@ -989,7 +1003,8 @@ def numeric_round_trips(rep, fnd, pid, tier):
             J2 = int(rng.integers(1, 3))
             if mode == "reflect":
                 H, W = max(H, L + 2 * J2), max(W, L + 2 * J2)
-            fw, iv = pw.DWTForward(J=J2, wave=name, mode=mode), pw.DWTInverse(wave=name, mode=mode)
+            fw = pw.DWTForward(J=J2, wave=dwtlib.wave_form(name, kf + 1)[0], mode=mode)
+            iv = pw.DWTInverse(wave=dwtlib.wave_form(name, kf + 3, synthesis=True)[0], mode=mode)
             for x in adversarial_inputs(rng, (1, 2, H, W))[:3]:
                 cfg = dict(wavelet=name, mode=mode, H=H, W=W, J=J2)
                 try:
